@@ -21,7 +21,7 @@ PROPS = {
         'not_decided': 'the alpha/beta dualisation and its expectations',
     },
     'C04': {
-        'rules': ['R16', 'R07'],
+        'rules': ['R25', 'R07'],
         'decided': 'expectation marker and event partition survive every shape-preserving '
                    'operation; expectation blocks of mix_support keep every cone list',
         'not_decided': 'everything numeric',
@@ -66,12 +66,12 @@ PROPS = {
         'not_decided': 'numerical agreement of optima, solver status semantics',
     },
     'C12': {
-        'rules': ['R17', 'R18'],
+        'rules': ['R17', 'R18', 'R25'],
         'decided': 'read-back guards; sense applied exactly once each way; evaluator branch laws',
         'not_decided': 'index arithmetic of DecVar.get / rule_var, scenario labelling',
     },
     'C13': {
-        'rules': ['R10', 'R02', 'R16'],
+        'rules': ['R10', 'R02', 'R25'],
         'decided': 'illegal declarations raise; adaptation after rule expansion invalidates or '
                    'raises; partitions combined by comb_set in binary operations and propagated '
                    'by unary ones',
